@@ -257,6 +257,10 @@ func (a *NodeActor) tryJoinSeeds(ctx vivid.ActorContext, seeds []string) error {
 				a.nodeState.LogicalClock = 1
 			}
 			a.clusterView.AddMember(a.nodeState)
+			// 分代提升是一次本地变更，必须体现在版本向量里：合并前的那次递增已被旧实例留下的计数吸收，
+			// 若不再递增，携带新分代的视图与对端已有的版本向量相等，shouldSendGossipTo 会一直跳过它，
+			// 晚加入的节点将永远保留旧分代
+			a.incrementLocalVersion()
 		}
 		a.events.PublishLeaderIfChanged(ctx, a.clusterView, a.nodeState.Address, a.quorumCalc.SatisfiesQuorum(a.clusterView))
 		a.broadcastViewOnce(ctx)
